@@ -15,7 +15,7 @@ PROPERTY = "C14"
 
 META = {
     "bounds": {
-        "quick": "28 structural error statements x 3 insertion positions in a 3-statement base program and 4 positions (one per block) in a program of three `*=` blocks and a relocated part x 6 entry points; the same statements inside 9 wrappers expanded at code-generation time (taken .if / else, macro body, code argument, loop body, nested blocks, named scope) x 2 entry points; 6 value-dependent statement kinds with a symbolic 24-bit value (26 bits for the `*=` operand) x 6 entry points; valid programs x 6 entry points",
+        "quick": "30 structural error statements x 3 insertion positions in a 3-statement base program and 4 positions (one per block) in a program of three `*=` blocks and a relocated part x 6 entry points; the same statements inside 9 wrappers expanded at code-generation time (taken .if / else, macro body, code argument, loop body, nested blocks, named scope) x 2 entry points; 6 value-dependent statement kinds with a symbolic 24-bit value (26 bits for the `*=` operand) x 6 entry points; valid programs x 6 entry points",
         "thorough": "same with 4 insertion positions and two base programs",
     },
     "outside": ["argparse itself and the OS process boundary (exercised concretely by --replay through `python -m a816.cli`)", "error classes not listed in the property"],
@@ -53,6 +53,9 @@ STRUCTURAL = {
     # the offending argument is bound to a parameter that the body never reads / reads only in a branch not taken
     "undef-symbol-unused-macro-arg": ".macro unusedp(x) {\nnop\n}\nunusedp(nosuchsymbol)",
     "undef-symbol-unused-macro-arg-expr": ".macro unusede(x, y) {\n.db y\n}\nunusede(nosuchsymbol + 1, 2)",
+    # a source file holding a byte that is not valid UTF-8 (file entry points and .include only)
+    "non-utf8-byte": ".db 0x1\udcff2",
+    "non-utf8-byte-in-comment-free-text": "lda #0x1\udcfe",
     "bad-mode-index": "lda (0x10),x",
     "bad-mode-immediate": "stx #1",
     "bad-mode-long": "ldx.l 0x123456",
@@ -92,10 +95,16 @@ def jobs(tier, seed):
         for ek in STRUCTURAL:
             for pos in positions:
                 for en in ENTRIES:
+                    if ek.startswith("non-utf8") and en in ("string", "with_emitter"):
+                        continue     # the in-memory API receives text, not bytes
                     out.append({"id": f"b{bi}/{ek}/at{pos}/{en}", "fam": "structural", "base": bi, "err": ek, "pos": pos, "entry": en})
     # the same error statements inside constructs that are expanded at code-generation time
     for ek, stmt in STRUCTURAL.items():
         if "{" in stmt or "}" in stmt or ek.startswith("lex-unterminated"):
+            continue
+        if ek.startswith("non-utf8"):
+            for en in ("assemble", "cli-ips"):
+                out.append({"id": f"wrapped/included-file/{ek}/{en}", "fam": "structural", "base": 0, "err": ek, "pos": 2, "entry": en, "wrapper": "included-file"})
             continue
         for wn in WRAPPERS:
             for en in ("string", "cli-ips"):
@@ -140,6 +149,8 @@ def drive(entry, src, syms, cx):
     try:
         files = {"in.s": src}
         files.update(getattr(cx, "files", {}))
+        # lone surrogates U+DC80..DCFF in the harness text stand for raw bytes 0x80..0xFF (not valid UTF-8) in the files
+        files = {k: (v.encode("utf-8", "surrogateescape") if isinstance(v, str) and any(0xDC80 <= ord(c) <= 0xDCFF for c in v) else v) for k, v in files.items()}
         with virtual_files(cx, files, outputs=["out.bin"]):
             if entry == "string":
                 p = new_program(syms=syms)
